@@ -295,7 +295,7 @@ func (t *AtomTable) ModelValues(model map[string]string) (map[int]string, error)
 			if !ok {
 				return nil, fmt.Errorf("bad code %s", mv)
 			}
-			name := interp.NameOfCode(n)
+			name := interp.NameOfCodeVar(a.Var, n, model)
 			if !goIdentRe.MatchString(name) || a.Class == ClsUserName && digitsSuffix.MatchString(name) {
 				return nil, fmt.Errorf("model gives atom %s the class-invalid name %q", a.Var, name)
 			}
